@@ -821,9 +821,6 @@ func c11RuleTaint(p *Program, r *Reporter, g *c11Flow) {
 				return true
 			}
 		}
-		if b, ok := t.Underlying().(*types.Basic); ok && b.Info()&types.IsString != 0 {
-			return true
-		}
 		return c11Implements(t, g.readerIface)
 	}
 
